@@ -25,7 +25,7 @@ def _int(r):
 class EnsembleAdapter:
     """apply(act) performs the real call(s) of one spec action; observe() returns the spec's Obs."""
 
-    def __init__(self, cunit=250000, seed=0):
+    def __init__(self, cunit=250000, seed=0, iters=("i1",)):
         import molli as ml
         from molli.chem import Molecule, ConformerEnsemble, Atom
         from molli.chem import io as mio
@@ -35,11 +35,13 @@ class EnsembleAdapter:
         self.e = None
         self.src = None                       # the ensemble self.e was copy-constructed from (kept alive, observed)
         self.its = {}
+        self.held = {}                        # iterator -> the conformers it yielded so far (kept, re-read at every step)
+        self.iters = tuple(iters)
         self.views = {}
         self.rnd = random.Random(seed)
 
     def cleanup(self):
-        self.e, self.src, self.its, self.views = None, None, {}, {}
+        self.e, self.src, self.its, self.views, self.held = None, None, {}, {}, {}
 
     # ---- abstraction -------------------------------------------------------------------------
     def cf(self, rows):                       # spec coordinates -> float array (Angstrom)
@@ -93,7 +95,7 @@ class EnsembleAdapter:
         return self.views[i]
 
     def _drop(self):
-        self.its, self.views = {}, {}
+        self.its, self.views, self.held = {}, {}, {}
 
     # ---- text re-parsing (independent of molli.parsing) ----------------------------------------
     def parse_xyz(self, text):
@@ -202,9 +204,20 @@ class EnsembleAdapter:
             e.weights[int(act["i"]) - 1] = act["w"] / 1e3
         elif a == "start":
             self.its[act["it"]] = iter(e)
+            self.held[act["it"]] = []
         elif a == "next":
             c = next(self.its[act["it"]])
+            self.held[act["it"]].append(c)
             return {"out": "ok", "val": self._rowval(c)}
+        elif a == "collect":
+            kept = list(e) if self.rnd.random() < 0.5 else sorted((c for c in e), key=lambda c: 0)   # stable: order kept
+            self.held[act["it"]] = kept
+            self.its[act["it"]] = iter(())
+            return {"out": "ok", "val": [self._rowval(c) for c in kept]}
+        elif a == "hwc":
+            self.held[act["it"]][int(act["j"]) - 1].coords = self.cf(act["row"])
+        elif a == "hwq":
+            self.held[act["it"]][int(act["j"]) - 1].atomic_charges = self.qf(act["row"])
         elif a == "dump":
             return {"out": "ok", "val": self._dump(e, act["fmt"])}
         elif a == "cdump":
@@ -219,7 +232,10 @@ class EnsembleAdapter:
             r = self.mio._deserialize_mol_v2(self.msgpack.loads(blob, use_list=False))
             return {"out": "ok", "val": {"na": r.n_atoms, "nb": r.n_bonds, "c": self.ci(r.coords), "q": self.qi(r.atomic_charges)}}
         elif a == "slice":
-            return {"out": "ok", "val": [self._rowval(c) for c in e[int(act["lo"]):int(act["hi"])]]}
+            got = e[int(act["lo"]):int(act["hi"])]
+            for k, c in enumerate(got):               # conformers obtained from a slice are kept as held views, too
+                self.views.setdefault(int(act["lo"]) + k + 1, c)
+            return {"out": "ok", "val": [self._rowval(c) for c in got]}
         else:
             raise AssertionError(f"unknown action {a}")
         return {"out": "ok"}
@@ -246,7 +262,7 @@ class EnsembleAdapter:
         e = self.e
         if e is None:
             return {"made": False, "na": 0, "nb": 0, "shC": [0, 0, 3], "shQ": [0, 0], "shW": [0], "C": [], "Q": [], "W": [],
-                    "src": {"made": False, "C": [], "Q": [], "W": []}, "v": []}
+                    "src": {"made": False, "C": [], "Q": [], "W": []}, "held": {it: [] for it in self.iters}, "v": []}
         v = []
         for i in range(1, e.n_conformers + 1):
             held, fresh = self.view(i), e[i - 1]
@@ -261,7 +277,8 @@ class EnsembleAdapter:
         return {"made": True, "na": int(e.n_atoms), "nb": int(e.n_bonds),
                 "shC": [int(x) for x in e.coords.shape], "shQ": [int(x) for x in e.atomic_charges.shape],
                 "shW": [int(x) for x in e.weights.shape],
-                "C": self.ci(e.coords), "Q": self.qi(e.atomic_charges), "W": self.qi(e.weights), "src": self._src(), "v": v}
+                "C": self.ci(e.coords), "Q": self.qi(e.atomic_charges), "W": self.qi(e.weights), "src": self._src(),
+                "held": {it: [self._rowval(c) for c in self.held.get(it, [])] for it in sorted(set(self.iters) | set(self.held))}, "v": v}
 
 
 # ------------------------------------------------------------------------------------------------
@@ -278,7 +295,7 @@ LIMIT = 200_000_000          # |coordinate| stays below 200 A in micro-Angstrom:
 class History:
     def __init__(self, seed, max_atoms=4, max_conf=4, base=None):
         self.r = random.Random(seed)
-        self.ad = EnsembleAdapter(cunit=1, seed=seed)
+        self.ad = EnsembleAdapter(cunit=1, seed=seed, iters=("i1", "i2", "i3"))
         self.max_atoms, self.max_conf, self.base = max_atoms, max_conf, base
         self.ev = []
         self.na = None
@@ -335,7 +352,7 @@ class History:
         can_grow = n < self.max_conf + 3
         ops = ["append"] * 2 + ["extlist", "extens", "extself", "newcopy", "dump", "dump", "ser", "slice", "start", "start",
                                 "scale", "invert", "translate", "rotate", "center", "rotstack", "rotstack", "trstack"] \
-            + ["next"] * (6 if self.ad.its else 0) + (["swc", "swq", "ssw", "str"] * 2 if self.ad.src is not None else [])
+            + ["next"] * (6 if self.ad.its else 0) + ["collect"] * 2 + (["hwc", "hwq"] * 3 if any(self.ad.held.values()) else []) + (["swc", "swq", "ssw", "str"] * 2 if self.ad.src is not None else [])
         if n:
             ops += ["vwc", "vwq", "vsa", "vtr", "setw", "cdump", "cser"] * 2
         op = r.choice(ops)
@@ -366,6 +383,12 @@ class History:
             self.do({"act": "slice", "lo": lo, "hi": r.randint(lo, n)})
         elif op == "start":
             self.do({"act": "start", "it": r.choice(["i1", "i2", "i3"])})
+        elif op == "collect":
+            self.do({"act": "collect", "it": r.choice(["i1", "i2", "i3"])})
+        elif op in ("hwc", "hwq"):
+            it = r.choice(sorted(k for k, v in self.ad.held.items() if v))
+            j = r.randint(1, len(self.ad.held[it]))
+            self.do({"act": op, "it": it, "j": j, "row": self.rmol(na)["g" if op == "hwc" else "q"]})
         elif op == "next":
             live = sorted(self.ad.its)
             if live:
